@@ -55,6 +55,7 @@ EXPECT = {  # subject substring -> checks that should detect the reversal
     "nobody is waiting for does not stay": ["C15"],
     "trailer section after the last chunk": ["C01"],
     "descriptor now belongs to another connection": ["C09", "C13"],
+    "joined before the first of them is destroyed": ["C13"],
 }
 
 
